@@ -20,7 +20,8 @@ Tbl1(tbls, sym, a) == Lookup1(TblOf(tbls, sym), a)
 Tbl2(tbls, sym, a, b) == Lookup2(TblOf(tbls, sym), a, b)
 Tbl0(tbls, sym) == LET rows == TblOf(tbls, sym) IN IF Len(rows) = 0 THEN <<2>> ELSE rows[1][1]
 
-\* one instruction; active[r] tells whether row r is computed (FilteredApply) - others get the zero value
+\* one instruction; active[r] tells whether row r is computed (FilteredApply) - others get the zero value;
+\* filtered: 0 = Apply, 1 / 2 = FilteredApply (see FilteredApplySem)
 \* returns a frame (ErrFrame / Unspec possible)
 InstrSem(f, in, tbls, active, filtered) ==
   LET fn == in.fn  dst == in.dst IN
@@ -29,9 +30,17 @@ InstrSem(f, in, tbls, active, filtered) ==
        \* zero-argument: constant, column copy, fn()
        IF fn.k = "const" /\ ConstType(fn.v) # "none" THEN
           IF ~NameOK(dst) THEN ErrFrame
-          ELSE IF filtered THEN Unspec            \* see DESIGN 7 (D15): constants ignore the filter
-          ELSE SetColumn(f, PlainCol(dst, ConstType(fn.v), [r \in 1..f.n |-> Unx(fn.v.c)]))
-       ELSE IF fn.k = "col" THEN (IF filtered THEN Unspec ELSE CopySem(f, dst, fn.v.s))
+          ELSE IF filtered = 1 THEN Unspec        \* see DESIGN 7 (D15): constants ignore the filter
+          ELSE SetColumn(f, PlainCol(dst, ConstType(fn.v), [r \in 1..f.n |-> IF active[r] THEN Unx(fn.v.c) ELSE ZeroCell(ConstType(fn.v))]))
+       ELSE IF fn.k = "col" THEN
+          IF filtered = 1 THEN Unspec
+          ELSE IF filtered = 0 THEN CopySem(f, dst, fn.v.s)
+          ELSE \* by the letter of C06: the matching rows are copied, the others get the zero value
+               IF ~HasCol(f, fn.v.s) THEN ErrFrame
+               ELSE IF ~NameOK(dst) THEN ErrFrame
+               ELSE LET src == ColOf(f, fn.v.s) IN
+                    SetColumn(f, [src EXCEPT !.name = dst,
+                                             !.cells = [r \in 1..f.n |-> IF active[r] THEN src.cells[r] ELSE ZeroCell(FnType(src.typ))]])
        ELSE IF fn.k = "fn0" THEN
           IF ~NameOK(dst) THEN ErrFrame
           ELSE SetColumn(f, PlainCol(dst, fn.rest, [r \in 1..f.n |-> IF active[r] THEN Tbl0(tbls, fn.sym) ELSE ZeroCell(fn.rest)]))
@@ -48,7 +57,7 @@ InstrSem(f, in, tbls, active, filtered) ==
        ELSE IF fn.k = "builtin" THEN
           IF fn.sym # "ToUpper" \/ s1.typ \notin {"string", "enum"} THEN ErrFrame
           ELSE IF ~NameOK(dst) THEN ErrFrame
-          ELSE IF filtered THEN Unspec
+          ELSE IF filtered # 0 THEN Unspec
           ELSE LET up(c) == IF IsNull(c) THEN c ELSE Tbl1(tbls, fn.sym, c) IN
                IF s1.typ = "string"
                THEN SetColumn(f, PlainCol(dst, "string", [r \in 1..f.n |-> up(s1.cells[r])]))
@@ -80,20 +89,22 @@ InstrFold(f, instrs, k, tbls, active, filtered) ==
 RECURSIVE ApplyCalls(_, _, _, _)
 ApplyCalls(f, instrs, k, tbls) ==
   IF k > Len(instrs) \/ f.err \/ IsUnspec(f) THEN <<0, 0>>
-  ELSE LET g == InstrSem(f, instrs[k], tbls, [r \in 1..Max2(f.n, 0) |-> TRUE], FALSE)
+  ELSE LET g == InstrSem(f, instrs[k], tbls, [r \in 1..Max2(f.n, 0) |-> TRUE], 0)
            here == IF instrs[k].fn.k \in {"fn0", "fn1", "fn2"} THEN f.n ELSE 0
            rest == ApplyCalls(g, instrs, k + 1, tbls)
        IN IF g.err \/ IsUnspec(g) THEN <<0, here>> ELSE <<here + rest[1], here + rest[2]>>
 
-ApplySem(f, instrs, tbls) == InstrFold(f, instrs, 1, tbls, [r \in 1..Max2(f.n, 0) |-> TRUE], FALSE)
+ApplySem(f, instrs, tbls) == InstrFold(f, instrs, 1, tbls, [r \in 1..Max2(f.n, 0) |-> TRUE], 0)
 
-FilteredApplySem(f, clause, instrs, tbls) ==
+\* mode 1: constants, column copies and built-ins under a filter are unspecified (finding D15 kept out of the
+\* way of everything else); mode 2: judged by the letter of C06 (the witness scenarios of D15)
+FilteredApplySem(f, clause, instrs, tbls, mode) ==
   IF f.err THEN f
   ELSE LET ct == ClauseTruth(f, clause) IN
        CASE ct.st = "err" -> ErrFrame
          [] ct.st = "unspec" -> Unspec
          [] ct.st = "miss" -> [err |-> FALSE, n |-> 1, cols |-> <<PlainCol(<<>>, "miss", <<<<2>>>>)>>]
-         [] OTHER -> InstrFold(f, instrs, 1, tbls, ct.t, TRUE)
+         [] OTHER -> InstrFold(f, instrs, 1, tbls, ct.t, mode)
 
 WithRowNumsSem(f, dst) ==
   IF f.err THEN f
